@@ -287,7 +287,11 @@ pub struct DayTables {
 
 impl DayTables {
     pub fn new() -> DayTables {
-        let days = Day::all();
+        Self::with_stride(1)
+    }
+    /// every `stride`-th notation only (sanitizer slices)
+    pub fn with_stride(stride: usize) -> DayTables {
+        let days: Vec<Day> = Day::all().into_iter().step_by(stride.max(1)).collect();
         let doy = days.iter().map(|d| (0..=400).map(|k| (d.days(CYCLE_Y0 + k) - cal::days_from_civil(CYCLE_Y0 + k, 1, 1)) as i16).collect()).collect();
         let len = (0..=400).map(|k| if cal::is_leap(CYCLE_Y0 + k) { 366 } else { 365 }).collect();
         DayTables { days, doy, len }
